@@ -41,6 +41,9 @@ EXTENDS Integers, Sequences, FiniteSets, TLC, Json, SequencesExt, NameCodecOps
 
 CONSTANTS Part,
           Keys,      \* "name": set of <<platform, language id, name id>>
+          FieldMax,  \* "name": largest value of the offset and length fields, 2^W - 1 (W = 16 in the format,
+                     \*         W = 3 in the model: the laws below are laws of the field width)
+          DecWraps,  \* "name": the reader computes offset+length in W bits (the design this machine rules out)
           MacStrs,   \* "name": strings available to Macintosh records
           WinStrs,   \* "name": strings available to Windows records
           PStd,      \* "post": the standard list of the model
@@ -83,11 +86,16 @@ NameInit ==
   /\ recs = <<>> /\ stor = <<>> /\ dec = [k \in Keys |-> <<>>] /\ ph = "enc"
 
 \* nameBuilder.Add: bytes b placed at offset off; the part of b inside the storage must
-\* already be there (content!), the rest is appended.
+\* already be there (content!), the rest is appended.  Offset and length are W-bit fields:
+\* a placement whose offset or length does not fit the field does not exist.  (offset + length
+\* may well exceed the field range: a string may start below 2^W and end beyond it.)
+Inside(b, off) == IF off + Len(b) <= Len(stor) THEN Len(b) ELSE Len(stor) - off
+CanPlace(b, off) ==
+  /\ off <= FieldMax /\ Len(b) <= FieldMax
+  /\ SubSeq(stor, off + 1, off + Inside(b, off)) = SubSeq(b, 1, Inside(b, off))
 Place(b, off) ==
-  LET inside == IF off + Len(b) <= Len(stor) THEN Len(b) ELSE Len(stor) - off
-  IN  /\ SubSeq(stor, off + 1, off + inside) = SubSeq(b, 1, inside)
-      /\ stor' = stor \o SubSeq(b, inside + 1, Len(b))
+  /\ CanPlace(b, off)
+  /\ stor' = stor \o SubSeq(b, Inside(b, off) + 1, Len(b))
 
 EncAdd ==
   /\ ph = "enc"
@@ -100,23 +108,42 @@ EncAdd ==
          /\ todo' = todo \ {k}
   /\ UNCHANGED <<src, dec, ph>>
 
+\* a string that cannot be placed anywhere within the field range: the encoder refuses the whole
+\* table (it must not write an offset modulo 2^W)
+EncRefuse ==
+  /\ ph = "enc"
+  /\ \E k \in todo : \A off \in 0..Len(stor) : ~CanPlace(Payload(k[1], src[k]), off)
+  /\ ph' = "refused"
+  /\ UNCHANGED <<src, todo, recs, stor, dec>>
+
 EncDone == ph = "enc" /\ todo = {} /\ ph' = "dec" /\ UNCHANGED <<src, todo, recs, stor, dec>>
 
 \* Decode: records are read in order; only understood platform/encoding pairs are kept
 DecStep ==
   /\ ph = "dec" /\ Len(recs) > 0
-  /\ LET r == Head(recs)
-         b == SubSeq(stor, r.off + 1, r.off + r.len)
-     IN  /\ dec' = IF Understood(r.p, r.e)
-                     THEN [dec EXCEPT ![<<r.p, r.l, r.n>>] = DecodeBytes(r.p, b)]
-                     ELSE dec
-         /\ recs' = Tail(recs)
-  /\ UNCHANGED <<src, todo, stor, ph>>
+  /\ LET r    == Head(recs)
+         \* the end of the string is offset + length as a NUMBER (up to 2 * FieldMax), not as a field
+         end  == IF DecWraps THEN (r.off + r.len) % (FieldMax + 1) ELSE r.off + r.len
+         b    == SubSeq(stor, r.off + 1, end)
+     IN  IF end < r.off \/ end > Len(stor)
+           THEN ph' = "panic" /\ UNCHANGED <<dec, recs>>          \* slice bounds out of range
+           ELSE /\ dec' = IF Understood(r.p, r.e)
+                            THEN [dec EXCEPT ![<<r.p, r.l, r.n>>] = DecodeBytes(r.p, b)]
+                            ELSE dec
+                /\ recs' = Tail(recs)
+                /\ ph' = ph
+  /\ UNCHANGED <<src, todo, stor>>
 
 DecDone == ph = "dec" /\ recs = <<>> /\ ph' = "done" /\ UNCHANGED <<src, todo, recs, stor, dec>>
 
-NameNext == EncAdd \/ EncDone \/ DecStep \/ DecDone
+NameNext == EncAdd \/ EncRefuse \/ EncDone \/ DecStep \/ DecDone
 
+\* offsets and lengths fit their fields; nothing is ever written modulo 2^W
+FieldsFit == \A i \in 1..Len(recs) : recs[i].off <= FieldMax /\ recs[i].len <= FieldMax
+\* the reader never slices out of range (it would, if it added offset and length in W bits)
+NoPanic == ph # "panic"
+\* the encoder refuses only what no placement can hold: the next free offset is beyond the field
+RefusalJustified == ph = "refused" => Len(stor) > FieldMax
 \* every record lies inside the storage area
 RecordsInside == \A i \in 1..Len(recs) : recs[i].off >= 0 /\ recs[i].off + recs[i].len <= Len(stor)
 \* the bytes a record points at are the encoding of the string it stands for
